@@ -156,6 +156,45 @@ void h_solve_too_few(void)
     /* --memory-leak-check */
 }
 
+
+/*
+ * C03: a standard with an UNKNOWN reflect parameter on one port of a 2x2
+ * calibration leaves the other S cells unspecified (NULL);
+ * _vnacal_new_solve_update_s_matrices, which patches the current values of
+ * the unknown parameters into the per-standard S matrices, must cope with
+ * those cells.
+ */
+void h_update_s_partial(void)
+{
+    IN(double, m11a);
+    double f[1] = { 1.0e9 };
+    double complex v1[1];
+    double complex *m1[1] = { v1 };
+    vnacal_t *vcp;
+    vnacal_new_t *vnp;
+    vnacal_new_solve_state_t vnss;
+    int unknown;
+
+    v1[0] = m11a;
+    ghost_err_reset();
+    vcp = vnacal_create(verif_error_fn, NULL);
+    ASSUME(vcp != NULL);
+    unknown = vnacal_make_unknown_parameter(vcp, VNACAL_SHORT);
+    ASSUME(unknown == 3);
+    vnp = vnacal_new_alloc(vcp, CAL_TYPE, CAL_ROWS, CAL_COLS, 1);
+    ASSUME(vnp != NULL);
+    ASSUME(vnacal_new_set_frequency_vector(vnp, f) == 0);
+    ASSUME(vnacal_new_add_single_reflect_m(vnp, m1, 1, 1, unknown, 1) == 0);
+    ASSUME(vs_init(&vnss, vnp) == 0);
+    ASSUME(vs_start_frequency(&vnss, 0) == 0);
+    vs_update_s_matrices(&vnss);
+    REACH("update_s_matrices returned");
+    CHECK(ghost_err_calls == 0, "no error is reported");
+    vs_free(&vnss);
+    vnacal_new_free(vnp);
+    vnacal_free(vcp);
+}
+
 #ifdef VERIF_NATIVE
 int main(void) { HARNESS(); return 0; }
 #endif
